@@ -458,6 +458,42 @@ Proof.
   split; [eexists _, _; vm_compute; reflexivity|]. eexists _, _, _. split; [vm_compute; reflexivity|]. vm_compute; reflexivity.
 Qed.
 
+(* non-vacuity of the whole-text converse: the analysis of  10 A = 1 : PRINT A / 20 A$ = 5 : PRINT 1  reports one
+   Error (TYPE MISMATCH on file line 1), the text has no DEF, the message is not a tokenization error of pass 1 -
+   so by the theorem it comes from the walk on a stored line, here line 20, which is straight, and an interpreter that
+   holds the program and stands at line 20 indeed fails there *)
+Lemma caps_set_loc l s0 : caps_inv s0 -> caps_inv (set_loc l s0).
+Proof. intros H. apply (caps_inv_ext s0); try reflexivity. exact H. Qed.
+
+Definition C06_text_lines : list String.string := ["10 A = 1 : PRINT A"; "20 A$ = 5 : PRINT 1"]%string.
+Definition C06_text : bytes := List.concat (map (fun l => bs l ++ [10%N]) C06_text_lines).
+Definition C06_text_state : interp :=
+  set_loc (mkloc (Some 20%N) 0) (run_state 100 init_interp (map (fun l => HLine (bs l)) C06_text_lines)).
+
+Example C06_reported_error_example :
+  let msg := MError 1 ETypeMismatch (Some (mkloc (Some 20%N) 2)) in
+  line_bound C06_text < 200
+  /\ nodef_program (st_toks (p_prog (pass1_of' C06_text)))
+  /\ In msg (an_messages (analyze 200 C06_text)) /\ is_error_msg msg = true /\ ~ In msg (p_msgs (pass1_of' C06_text))
+  /\ st_toks C06_text_state = st_toks (p_prog (pass1_of' C06_text))
+  /\ st_keys C06_text_state = st_keys (p_prog (pass1_of' C06_text))
+  /\ immediate C06_text_state = [] /\ loc C06_text_state = mkloc (Some 20%N) 0
+  /\ caps_inv C06_text_state /\ functions C06_text_state = []
+  /\ match toks_get 20%N (st_toks C06_text_state) with Some ts => straight_line ts | None => false end = true
+  /\ match has_next_token C06_text_state with
+     | (Ok true, s1) => match evaluate_statement 200 0 s1 with (Err ETypeMismatch _, _) => true | _ => false end
+     | _ => false
+     end = true.
+Proof.
+  cbn zeta.
+  split; [vm_compute; repeat constructor|]. split; [apply nodef_program_check; vm_compute; reflexivity|].
+  split; [vm_compute; left; reflexivity|]. split; [reflexivity|]. split; [vm_compute; exact (fun H => H)|].
+  split; [vm_compute; reflexivity|]. split; [vm_compute; reflexivity|]. split; [vm_compute; reflexivity|].
+  split; [vm_compute; reflexivity|].
+  split; [unfold C06_text_state; apply caps_set_loc, caps_reachable, caps_init|].
+  split; [vm_compute; reflexivity|]. split; vm_compute; reflexivity.
+Qed.
+
 (* non-vacuity of the completeness direction: the checker REJECTS  1 + "x"  on
    a fresh state (so by the theorem the interpreter cannot evaluate it) and the
    interpreter indeed answers TYPE MISMATCH *)
